@@ -107,7 +107,7 @@ def m_strip(ip, s, chars=None):
     seen = p.ghost.setdefault("strip_apps", {})
     tag = (key, s.t.get_id())
     if tag not in seen:
-        seen[tag] = True
+        _strip_concat_lemma(p, s.t, mid, cs)
         base = p.fresh_name("strip")
         pre, suf = z3.String(base + "_pre"), z3.String(base + "_suf")
         cre = sym.re_chars(cs)
@@ -122,6 +122,35 @@ def m_strip(ip, s, chars=None):
 
 
 _STRIP_FUNCS = {}
+
+
+def _strip_concat_lemma(p, t, result, cs):
+    """Lemma instance (a theorem of strip): if t = c1 ++ x ++ c2 with c1, c2 constants over the strip characters and x is
+    empty or begins and ends with a non-strip character, then strip(t) = x.  The side condition on x is PROVED under the
+    current path condition (quick query); only then is the instance added."""
+    t = z3.simplify(t)
+    if not (z3.is_app(t) and t.decl().kind() == z3.Z3_OP_SEQ_CONCAT):
+        return
+    kids = list(t.children())
+    lead, trail = 0, len(kids)
+    while lead < trail and z3.is_string_value(kids[lead]) and all(ch in cs for ch in core.unesc(kids[lead].as_string())):
+        lead += 1
+    while trail > lead and z3.is_string_value(kids[trail - 1]) and all(ch in cs for ch in core.unesc(kids[trail - 1].as_string())):
+        trail -= 1
+    if (lead == 0 and trail == len(kids)) or lead >= trail:
+        return
+    middle = kids[lead:trail]
+    x = middle[0] if len(middle) == 1 else z3.Concat(*middle)
+    notc = sym.re_char_not(cs)
+    allc = z3.Range(strval("\x00"), strval(chr(0x2FFFF)))
+    ok_shape = z3.InRe(x, z3.Union(z3.Re(strval("")), notc, z3.Concat(notc, z3.Star(allc), notc)))
+    p.solver.push()
+    p.solver.add(z3.Not(ok_shape))
+    r = p.solver.check()
+    p.solver.pop()
+    if r == z3.unsat:
+        p.add(result == x)
+        p.ghost.setdefault("strip_lemmas", []).append(str(x)[:60])
 
 
 def _one_sided_strip(ip, s, chars, left):
@@ -240,6 +269,13 @@ def m_split(ip, s, *a, **k):
 def m_splitlines(ip, s, *a, **k):
     if a or k:
         raise Unsupported("splitlines(keepends)")
+    if isinstance(s, SStr) and s.isbytes:
+        from . import shape
+        ps = shape.pieces_of(s.t)
+        if ps is not None:
+            lines = shape.splitlines_bytes(ps)
+            if lines is not shape.UNKNOWN:
+                return [mkstr(shape.concat(l), True) for l in lines]
     return sym.s_splitlines(s)
 
 
